@@ -14,21 +14,21 @@ const Available = false
 
 func MergeBlockBodySchemas(block *hcl.Block, bs *schema.BlockSchema) *schema.BodySchema { return nil }
 
-func Steps() int64                                  { return 0 }
-func ResetSteps()                                   {}
-func SetChooser(f func(site, n int) []int)          {}
-func SetYieldHook(f func(site int))                 {}
-func Site(id int) string                            { return "?" }
-func Stats() (mapSites, yields, probes, unprobed int) { return }
-func Globals() []any                                { return nil }
-func BarrierReset()                                 {}
+func Steps() int64                                       { return 0 }
+func ResetSteps()                                        {}
+func SetChooser(f func(site, n int) []int)               {}
+func SetYieldHook(f func(site int))                      {}
+func Site(id int) string                                 { return "?" }
+func Stats() (mapSites, yields, probes, unprobed int)    { return }
+func Globals() []any                                     { return nil }
+func BarrierReset()                                      {}
 func BarrierAddRegion(p uintptr, size uintptr, tag byte) {}
 func BarrierAddMap(id uintptr, tag byte)                 {}
 func BarrierHitsG() map[int]int                          { return nil }
 func SyncImported() bool                                 { return false }
-func BarrierSeal()                                  {}
-func BarrierEnable(on bool)                         {}
-func BarrierHits() map[int]int                      { return nil }
-func BarrierProbes() int64                          { return 0 }
-func BarrierClearHits()                             {}
-func BarrierSizes() (int, int)                      { return 0, 0 }
+func BarrierSeal()                                       {}
+func BarrierEnable(on bool)                              {}
+func BarrierHits() map[int]int                           { return nil }
+func BarrierProbes() int64                               { return 0 }
+func BarrierClearHits()                                  {}
+func BarrierSizes() (int, int)                           { return 0, 0 }
